@@ -205,13 +205,27 @@ LIVE_FN = ('fun c : fspec * list ip => match to_filter (fst c) with None => "BAD
            'show_list (fun p => if matches f p then "S" else "C") "," (snd c) end')
 
 
+def model_eval(ctx, *a, **kw):
+    """the model's answers, or None per case when the model does not compile (lost tie: the
+    implementation is then still compared with the Spec, to find a concrete failing input)"""
+    n = len(a[2])
+    if not ctx.models_ok:
+        return [None] * n
+    try:
+        return ctx.coq_eval(*a, **kw)
+    except vlib.ModelEvalError as e:
+        ctx.oblige('model-evaluates', False, str(e)[:300])
+        return [None] * n
+
+
 def run(ctx):
     ctx.translate(['ServerCtors.v'])
     models_ok = ctx.build_models(['Base.Show', 'Model.Filter', 'Spec.FilterSpec'])
     ctx.prove()
     if ctx.tier == 'thorough':
         ctx.coqchk()
-    if not ctx.build_harness() or not models_ok:
+    ctx.models_ok = models_ok
+    if not ctx.build_harness():
         return
     if ctx.replay and 'cases' in ctx.replay:
         strings = [c[1] for c in ctx.replay['cases'] if c[0] == 'parse']
@@ -227,7 +241,7 @@ def run(ctx):
     by_fields = {}
     if strings:
         impl = ctx.harness('filter_parse', [s.encode('utf-8').hex() or '-' for s in strings], shards=4)
-        model = ctx.coq_eval(['Base.Show', 'Model.Filter'], 'show_parse', [vlib.coq_N_list(s.encode('utf-8')) for s in strings],
+        model = model_eval(ctx, ['Base.Show', 'Model.Filter'], 'show_parse', [vlib.coq_N_list(s.encode('utf-8')) for s in strings],
                              case_type='list N', per_shard=400)
         parse_samples = [['parse', s, i] for s, i in zip(strings, impl)]
         for s, i, m in zip(strings, impl, model):
@@ -253,7 +267,7 @@ def run(ctx):
                            'wildcard-parser-rejects-or-misreads-grammar') + ('' if rust != spec else '.ffi')
                     ctx.violation(key, f'{which} on {s!r}: got {got}, the four-field grammar says {want}',
                                   {'cases': [['parse', s]], 'impl': i, 'spec': spec, 'model': m})
-            elif m != spec:
+            elif m is not None and m != spec:
                 n_bad += 1
                 if n_bad <= 3:
                     ctx.violation('parser-model-differs-from-impl', f'{s!r}: model {m}, implementation and grammar {spec}',
@@ -271,13 +285,13 @@ def run(ctx):
         for ln in live:
             api, variant, ctor, bind, flt, peers = ln.split()
             parsed.append((api, variant, ctor, bind, flt, peers.split(',')))
-        model = ctx.coq_eval(['Base.Show', 'Model.Filter'], LIVE_FN,
+        model = model_eval(ctx, ['Base.Show', 'Model.Filter'], LIVE_FN,
                              [f'({coq_filter(p[4])}, [{"; ".join(coq_ip(seen_as(p[3], x)) for x in p[5])}])' for p in parsed],
                              case_type='fspec * list ip', preamble=LIVE_PRE, per_shard=100)
         for ln, p, i, m in zip(live, parsed, impl, model):
             api, variant, ctor, bind, flt, peers = p
             got = i.split(',')
-            mod = m.split(',')
+            mod = m.split(',') if m is not None else [None] * len(peers)
             if i.startswith('FAIL') or i == 'PANIC' or len(got) != len(peers):
                 n_live_bad += 1
                 ctx.oblige('live-scenario-ran', False, f'{ln}: {i}')
@@ -299,7 +313,7 @@ def run(ctx):
                             key = f'admitted-peer-not-served.{api}.{variant}'
                             txt = f'{api} {variant} server ({ctor}) bound to {bind} with filter {flt}: peer {peer} matches the filter but gets {g}'
                         ctx.violation(key, txt, {'cases': [['live', small]], 'impl': g, 'spec': want, 'model': mm, 'original_case': ln})
-                elif mm != want:
+                elif mm is not None and mm != want:
                     n_live_bad += 1
                     ctx.violation('matches-model-differs-from-impl', f'{ln}: peer {peer}: model {mm}, implementation and Spec {want}',
                                   {'cases': [['live', ln]], 'impl': g, 'spec': want, 'model': mm}, no_failing_input=True)
